@@ -797,6 +797,11 @@ for _text_limit in ("maxstring", "maxother"):
                 raise AssertionError(
 """),
     ],
+    "mutants/c06_fix_assigned_names_known_to_the_representation_reverted": [
+        (REPR, """            variable_lookup=variable_lookup + [assigned_names],
+""", """            variable_lookup=variable_lookup,
+"""),
+    ],
     "seeded/C04_r3_async_pre_returns_at_first_failed_group": [
         (CHK, """            if not_check(check=check, contract=contract):
                 violated = contract
